@@ -35,13 +35,34 @@ def check(case):
     ok, b = unowned(r, pl.build, samples, opts)
     if not ok:
         return r
-    nested = bool(opts["nested"] and pl.is_tree(b.reg))
-    ok, src = unowned(r, pl.render, b.reg, dict(opts, nested=nested))
-    if not ok:
-        return r
-    v = codeview.load_view(r, b, opts, src, nested, own=False)
-    if v is None:
-        return r
+    tree = pl.is_tree(b.reg)
+    dag = (not tree) and len(b.roots) == 1 and pl.is_acyclic(b.reg)
+    nested = bool(opts["nested"] and (tree or dag))
+    if nested and dag:
+        # extension beyond C03's tree-only claim (C04 quantifies over both layouts): acyclic single-root graphs, where shared
+        # models are referenced through absolute (dotted) paths; there an unresolvable annotation is C04's own business
+        r.label("layout:nested-acyclic-shared-models")
+        r.nontrivial = True
+        sub = R()
+        ok, src = unowned(sub, pl.render, b.reg, dict(opts, nested=True))
+        if not ok:
+            r.fail("nested-acyclic:render-" + (sub.skip or "error"), "")
+            return r
+        v = codeview.load_view(sub, b, opts, src, True, own=True)
+        if v is None:
+            c, d = sub.viol[0]
+            if c.startswith(("load:NameError", "hints:", "class-count", "class-for-model", "load:TypeError", "load:AttributeError")):
+                r.fail("nested-acyclic:" + c, d)
+            else:
+                r.skip = "load-problem:" + c
+            return r
+    else:
+        ok, src = unowned(r, pl.render, b.reg, dict(opts, nested=nested))
+        if not ok:
+            return r
+        v = codeview.load_view(r, b, opts, src, nested, own=False)
+        if v is None:
+            return r
     maxlit = opts["max_literals"]
     pyd = fw in ("pydantic", "sqlmodel")
     for m in b.reg.models:
